@@ -50,6 +50,7 @@ def main():
                 lambda: common.cargo_build_bin(ctx, "thinzst", release=True),
                 lambda: common.cargo_build_bin(ctx, "cow", release=True),
                 lambda: common.cargo_build_bin(ctx, "uninit", release=True),
+                lambda: common.cargo_build_bin(ctx, "serdecorr", release=True),
                 lambda: common.cargo_build_bin(ctx, "ovf", features=("serde", "stable_deref_trait", "unsize", "arc-swap")),
                 lambda: common.cargo_build_bin(ctx, "ovf", features=("serde", "stable_deref_trait", "unsize", "arc-swap"), release=True),
                 lambda: layout_corr.build_variants(ctx, ["dbg", "rel-o0"])]
